@@ -149,25 +149,25 @@ Print Assumptions sync_sets_exact.
 
 (** sync_exact restricted to a FRESH node: for every hash H, node, cluster, manager memory and every consistent
     prior kernel that has no GLX-owned chain or set (arbitrary foreign chains, rules and sets) [fresh], provided
-    H does not collide on the names in play - compiled set names, policy chain names, chain names of this
-    node's pods - [names_distinct] and no rule lists one address with both nomatch flags (K5d): the whole Run
+    H does not collide on the keys (name_namespace) of the cluster's policies nor on the keys of this node's
+    pods [hash_distinct] and no rule lists one address with both nomatch flags (K5d): the whole Run
     (syncNetworkPolices; syncNetworkPolicyRules; syncPods) is accepted (no batch or command refused), the
     GLX-owned state afterwards is EXACTLY compile / pod_chain_rules / hooks of the cluster, and everything not
     GLX-owned is as before (FORWARD / INPUT / OUTPUT gain at most the jumps to GLX-INGRESS / GLX-EGRESS).
     Not covered: prior kernels that already hold GLX state (restart, events) - monitored by the driver *)
 Theorem sync_exact_partial_fresh : forall (H : str -> str) (host : str) (c : cluster) (k : kernel) (m : mgr),
-  fresh k = true -> names_distinct H host c = true -> conflicting_flags H c = false ->
+  fresh k = true -> hash_distinct H host c = true -> conflicting_flags H c = false ->
   exists m' k', run H host c (m, k) = (m', k', true) /\
     glx_exact H host c k' = true /\ foreign_same k k' = true.
-Proof. exact run_fresh. Qed.
+Proof. exact run_fresh_hash. Qed.
 Print Assumptions sync_exact_partial_fresh.
 
 (** the hypotheses are met by concrete non-trivial inputs: a node with a foreign chain, rule and set and the
     corpus cluster (three compiled sets); an existing set with an entry to keep, one to delete and one to add *)
 Example c15_nonvacuous_fresh :
-  fresh w_k0 = true /\ names_distinct idH w_host w5_c0 = true /\ conflicting_flags idH w5_c0 = false /\
+  fresh w_k0 = true /\ hash_distinct idH w_host w5_c0 = true /\ conflicting_flags idH w5_c0 = false /\
   List.length (all_sets (compile idH w5_c0)) = 3%nat /\ List.length (k_filter w_k0) = 4%nat.
-Proof. exact c15_example_fresh_l. Qed.
+Proof. exact c15_example_hash_l. Qed.
 
 Example c15_nonvacuous_sets :
   NoDup (map cs_name [ex_cset]) /\ (forall cs, In cs [ex_cset] -> set_pre cs ex_sets) /\
